@@ -19,17 +19,28 @@ import vlib
 CLASSES = ["a", "_", "1", ".", "\"", "/", "*", "\n", " ", "|", ">", "-", "=", "(", "{", "}", "é", "\U0001F600", "@", ":"]
 EXTRA = ["\r", "\t", "<", "!", "&", "$", "`", "#", ",", ";", ")", "[", "]", "あ", "\\", "?", "%", "+", "^", "'", "0", "e", "x", "~", "﻿"]
 BOUND = {"quick": (20, 4), "thorough": (20, 5)}
+# smaller lexicons explored deeper: the tokenizer's multi-character rules (numbers and projection chains,
+# comments and strings, operators) need longer texts than the full alphabet reaches
+SUBLEX = {
+    "quick": [("numeric", ["a", "1", "23", ".", "_", " "], 6),
+              ("comment", ["/", "*", "\n", "a", "\"", " "], 6),
+              ("operator", ["|", ">", "-", "=", "<", "!", "&", ":"], 5)],
+    "thorough": [("numeric", ["a", "1", "23", ".", "_", " ", "e", "-"], 7),
+                 ("comment", ["/", "*", "\n", "a", "\"", " ", "é"], 7),
+                 ("operator", ["|", ">", "-", "=", "<", "!", "&", ":", ".", "@"], 6)],
+}
 
 
-def gen_texts(chk, nclasses, maxlen):
+def gen_texts(chk, nclasses, maxlen, classes=None, label=""):
+    classes = classes or CLASSES
     path = os.path.join(vlib.TLA_DIR, "LexGen_run.cfg")
     with open(path, "w") as f:
         f.write(f"SPECIFICATION Spec\nCONSTANTS\n  NClasses = {nclasses}\n  MaxLen = {maxlen}\nINVARIANT Emit\nCHECK_DEADLOCK FALSE\n")
     r = vlib.run_tlc("LexGen", "LexGen_run", workers=12, timeout=3000)
     if r.violation:
         raise vlib.ToolError("LexGen: " + r.violation)
-    chk.tlc(r, f"LexGen[{nclasses}^<={maxlen}]")
-    return ["".join(CLASSES[c - 1] for c in rep["t"]) for rep in r.tagged["REPLAY"]]
+    chk.tlc(r, f"LexGen[{label}{nclasses}^<={maxlen}]")
+    return ["".join(classes[c - 1] for c in rep["t"]) for rep in r.tagged["REPLAY"]]
 
 
 def leading_linebreak(res):
@@ -116,6 +127,9 @@ def run(tier):
     vlib.build_harness()
     ncls, maxlen = BOUND[tier]
     texts = gen_texts(chk, ncls, maxlen)
+    for label, classes, ml in SUBLEX[tier]:
+        texts += gen_texts(chk, len(classes), ml, classes, label + " ")
+    texts = list(dict.fromkeys(texts))
     nexh = len(texts)
     texts += corpus_texts(rng, tier)
     # pinned inputs are judged in full
@@ -150,7 +164,8 @@ def run(tier):
     chk.cov["texts_corpus"] = len(texts) - nexh
     chk.cov["evaluations"] = len(texts)
     chk.cov["distinct_nontrivial"] = nontriv
-    chk.cov["rule"] = (f"all strings of length <= {maxlen} over {ncls} character classes (TLC, exhaustive) + shipped sources, "
+    chk.cov["sublexicons"] = [(l, c, m) for l, c, m in SUBLEX[tier]]
+    chk.cov["rule"] = (f"all strings of length <= {maxlen} over {ncls} character classes and deeper over three sub-lexicons (TLC, exhaustive) + shipped sources, "
                        "their prefixes, random and mutated texts; non-trivial = more than one token besides the end marker")
     chk.cov["exhaustive"] = True
     chk.add_sample({"text": texts[nexh // 2], "classes": CLASSES})
